@@ -101,7 +101,20 @@ def documented(c):
 
 def io_trouble(c):
     return c["out"][0] in "budrf" or ("c" in c["modes"] and c["cy"][0] in "budr") or c["stdout"][0] in "up" or \
-        c["log"][0] in "budr" or c["lim"] > 0
+        c["log"][0] in "budr" or c["lim"] > 0 or c["out"] == "xL" or c["log"] == "xL" or ("c" in c["modes"] and c["cy"] == "xL")
+
+
+def has_prestate(cls):
+    return (cls[0] == "x" and cls != "xL") or cls[0] == "q"
+
+
+def acceptable(c, name):
+    """the renderings a sink may equal for the documented renderer `name`.  The manual does not say whether a
+    --symbols-path value given BEHIND a positional symbol path is searched before it: both readings are accepted
+    (argv order, and flag values first); within one style the order given is the order searched."""
+    if name is None:
+        return set()
+    return {name, name + "@flagsfirst"} if c["sym"][0] == "M" else {name}
 
 
 def sink_len(s):
@@ -110,7 +123,7 @@ def sink_len(s):
 
 class C20(PropBase):
     pid = "C20"
-    translators = ["c20_dump_sequence.py"]
+    translators = ["c20_dump_sequence.py", "c20_wiring.py"]
     coq_dirs = ["C20"]
     bins = ["c20"]
     impl_timeout = 1500
@@ -297,6 +310,72 @@ class C20(PropBase):
                 for inp in ("F:test.dmp", "F:invalid-range.dmp", "X:missing"):
                     for modes, pretty in (("-", 0), ("j", 0), ("h", 1)):
                         add("verbose_log", mk(inp, "n", modes, 0, pretty, 9, 0, "-", "g", lg, verbose))
+        # L. the state of the sink paths BEFORE the run (absent is every other family): empty / shorter / longer / same length /
+        #    symlink to a longer file / dangling symlink / symlink loop, for every sink and every accepted option set; the
+        #    content after the run must be the library's rendering whatever the path held
+        for modes, brief, pretty in ACCEPTED:
+            for pre in ("xe", "xs", "xl", "xq", "xk", "xK", "xL"):
+                add("prestate", mk("F:test.dmp", rng.choice(["n", "p"]), modes, brief, pretty, 9, 0, pre))
+                if modes == "c":
+                    add("prestate", mk("F:test.dmp", "n", modes, brief, pretty, 9, 0, rng.choice(["-", "g"]), pre))
+            if thorough or rng.chance(1, 2):
+                add("prestate", mk("S:0", "n", modes, brief, pretty, 9, 0, "xl", "xl" if modes == "c" else "-", "xl"))
+        for pre in ("xe", "xs", "xl", "xk", "xK", "xL"):
+            for inp, modes in (("F:test.dmp", "-"), ("S:4", "j"), ("X:missing", "-"), ("F:invalid-range.dmp", "j"), ("S:2", "c")):
+                add("prestate", mk(inp, "n", modes, 0, 0, 9, 0, "-", "g", pre, rng.choice(["e", "warn", "info"])))
+        # failing runs over existing files: the file is left alone (read error) or emptied (processing error), never half-written
+        for inp in ("X:missing", "F:invalid-range.dmp", "S:2", "S:1", "X:text"):
+            for modes, brief, pretty in (("-", 0, 0), ("j", 0, 1), ("c", 1, 0), ("D", 0, 0)):
+                add("prestate", mk(inp, "n", modes, brief, pretty, 9, 0, rng.choice(["xl", "xs", "xk"]), rng.choice(["xl", "xs"]) if modes == "c" else "-"))
+        # run SEQUENCES on one path: a previous run of the tool with another option set wrote the file
+        for inp, sym in (("F:test.dmp", "p"), ("S:4", "n")):
+            for prev, modes, brief, pretty in (("qj", "h", 0, 0), ("qj", "-", 1, 0), ("qJ", "j", 0, 0), ("qD", "D", 1, 0), ("qD", "-", 0, 0),
+                                               ("qh", "h", 1, 0), ("qJ", "-", 0, 0), ("qDj", "h", 1, 0), ("qd", "D", 0, 0), ("qb", "j", 0, 1),
+                                               ("qDJ", "c", 1, 0)):
+                add("sequences", mk(inp, sym, modes, brief, pretty, 9, 0, prev))
+            for prev, brief, pretty in (("qC", 0, 0), ("qC", 1, 0), ("qc", 0, 1), ("qCc", 0, 0)):
+                add("sequences", mk(inp, sym, "c", brief, pretty, 9, 0, rng.choice(["-", "g", "qj"]), prev))
+            for prev, verbose in (("qT", "e"), ("qT", "warn"), ("qE", "e"), ("qTE", "info")):
+                add("sequences", mk(inp, sym, rng.choice(["-", "j"]), 0, 0, 9, 0, "-", "g", prev, verbose))
+        for prev, verbose in (("qT", "e"), ("qT", "error"), ("qE", "e")):
+            add("sequences", mk("X:missing", "n", "-", 0, 0, 9, 0, "-", "g", prev, verbose))
+            add("sequences", mk("S:2", "n", "j", 0, 0, 9, 0, "-", "g", prev, verbose))
+        # M. from argv to the symbol supplier: 2-3 symbol roots that describe the SAME module differently, in sorted and unsorted
+        #    order, duplicated, with roots that lack the module, as positionals / --symbols-path values in front of and behind
+        #    the minidump / mixed; several --symbols-url values; URLs together with paths; default cache directory
+        orders = ["za", "az", "zm", "mz", "ma", "am", "zma", "zam", "mza", "maz", "azm", "amz", "zaz", "aza", "zza", "mmaz",
+                  "xza", "ezm", "fza", "zf", "fa", "af", "oz", "zo", "ga", "zg", "ex", "xeza"]
+        for o in orders:
+            for style in ("pos", "flags", "flags_behind", "flag_pos", "pos_flag", "interleaved"):
+                if style == "pos":
+                    spec = "." + o
+                elif style == "flags":
+                    spec = o.upper() + "."
+                elif style == "flags_behind":
+                    spec = "." + o.upper()
+                elif style == "flag_pos":
+                    spec = o[0].upper() + "." + o[1:]
+                elif style == "pos_flag":
+                    spec = "." + o[0] + o[1:].upper()
+                else:
+                    if len(o) < 3:
+                        continue
+                    spec = o[0].upper() + "." + o[1] + o[2:].upper()      # flag, minidump, positional, flags
+                if not thorough and style in ("flags_behind", "interleaved") and rng.chance(1, 2):
+                    continue
+                modes, brief, pretty = rng.choice([("-", 1, 0), ("-", 0, 0), ("j", 0, 0), ("c", 1, 1), ("h", 1, 0), ("j", 0, 1)])
+                add("symbol_order", mk("F:test.dmp", "M" + spec, modes, brief, pretty, rng.choice([9, 9, 2]), 0, rng.choice(["-", "-", "g"])))
+        add("symbol_order", mk("F:test.dmp", "M.za", "D", 0, 0, 9, 0))
+        add("symbol_order", mk("F:linux-mini.dmp", "M.za", "-", 0, 0, 9, 0))
+        for spec in ("24.", "42.", "28.", "82.", "62.", "26.", "48.", "84.", "2.8", "8.2", "Z8.", "8.z", "4.za", "4.az", "A2.z", "2.e", "86."):
+            for modes, brief, pretty in (("-", 1, 0), ("j", 0, 0)) if not thorough else (("-", 1, 0), ("j", 0, 0), ("c", 0, 1), ("h", 0, 0)):
+                add("symbol_urls", mk("F:test.dmp", "M" + spec, modes, brief, pretty, 9, 0, rng.choice(["-", "g"])))
+        for modes in ("-", "j", "c"):
+            add("symbol_urls", mk("F:test.dmp", "U2d", modes, 0, 0, 9, 0))
+        # N. --evil-json reaches ProcessorOptions::evil_json
+        for modes, pretty in (("j", 0), ("j", 1), ("c", 0), ("-", 0)):
+            for inp in ("F:test.dmp", "F:linux-mini.dmp"):
+                add("evil_json", mk(inp, "p", modes, 0, pretty, 9, 0, rng.choice(["-", "g"]), evil=1))
         if thorough:
             # G. logging options, no-op flags, evil json, both symbol path styles at once
             for _ in range(1500):
@@ -332,6 +411,12 @@ class C20(PropBase):
         stdout, out, cy = parse_sink(a["stdout"]), parse_sink(a["out"]), parse_sink(a["cy"])
         stderr = int(a["stderr"])
         logf = None if a["log"] in ("-", "n/a") else int(a["log"])
+        kept = set(a.get("kept", "-").split("+")) - {"-"}
+        # a sink that is byte for byte what it was before the run has not been written to
+        if "out" in kept and isinstance(out, tuple) and ex != "0":
+            out = (0, out[1], set())
+        if "cy" in kept and isinstance(cy, tuple) and ex != "0":
+            cy = (0, cy[1], set())
         if ex.startswith("sig"):
             return "the tool was killed by signal %s" % ex[4:]
         if ex == "timeout":
@@ -380,7 +465,11 @@ class C20(PropBase):
                 return "status 0 but %s was not created" % pname
             if primary[0] == 0:
                 return "status 0 with an empty report on %s" % pname
-            if prim not in primary[2] and not ldi_unpredictable:
+            if not (acceptable(c, prim) & primary[2]) and not ldi_unpredictable:
+                if (prim + ">") in primary[2] or (">" + prim) in primary[2]:
+                    return "%s holds the library's %s rendering %s %d bytes that are not part of it (the path held %s bytes before the run)" % (
+                        pname, prim, "followed by" if (prim + ">") in primary[2] else "preceded by",
+                        primary[0] - exp_sizes(a).get(prim, 0), a.get("pre", "-/-/-").split("/")[0 if c["out"] != "-" else 1])
                 return "%s is not the library's %s rendering for these options (equals: %s)" % (
                     pname, prim, "+".join(sorted(primary[2])) or "none of the in-process renderings")
             if c["out"] != "-" and sink_len(stdout):
@@ -388,11 +477,15 @@ class C20(PropBase):
             if sec is not None:
                 if cy is None or cy == "n/a":
                     return "status 0 but the --cyborg file was not written"
-                if sec not in cy[2] and not ldi_unpredictable:
+                if not (acceptable(c, sec) & cy[2]) and not ldi_unpredictable:
+                    if (sec + ">") in cy[2] or (">" + sec) in cy[2]:
+                        return "the --cyborg file holds the library's %s rendering %s %d bytes that are not part of it (the path held %s bytes before the run)" % (
+                            sec, "followed by" if (sec + ">") in cy[2] else "preceded by", cy[0] - exp_sizes(a).get(sec, 0),
+                            a.get("pre", "-/-/-").split("/")[1])
                     return "the --cyborg file is not the library's %s rendering (equals: %s)" % (sec, "+".join(sorted(cy[2])) or "none")
             elif cy is not None:
                 return "a --cyborg file exists although --cyborg was not given"
-            return None
+            return self.side_effects(c, a)
         # status 1
         if lib == "O" and not io_trouble(c):
             return "status 1 although the library reads, processes and renders this input"
@@ -408,8 +501,27 @@ class C20(PropBase):
                     # F-C20c: the printers stream; an io error after the first bytes cannot take them back
                     midreport = " (io error after report bytes were streamed)"
                 return "status 1 but %d bytes of report on %s%s" % (sink_len(s), nm, midreport)
-        if stderr == 0 and not (c["log"] == "g" and logf):
+        if stderr == 0 and not ((c["log"] == "g" or has_prestate(c["log"])) and logf):
             return "status 1 without a diagnostic on standard error" + (" (--verbose=off)" if c["verbose"] == "off" else "")
+        return self.side_effects(c, a)
+
+    def side_effects(self, c, a):
+        """what a run leaves behind apart from the reports: the log file, the symbol cache"""
+        stale = set(a.get("stale", "-").split("+")) - {"-"}
+        for nm, k in (("the output file", "out"), ("the --cyborg file", "cy"), ("the --log-file", "log")):
+            if k in stale:
+                return "%s still holds bytes of what the path held before the run (%s bytes before, exit status %s)" % (
+                    nm, a.get("pre", "-/-/-").split("/")[("out", "cy", "log").index(k)], a["exit"])
+        if a.get("logref", "-") == "diff" and c["verbose"] in ("e", "off", "error", "warn", "info"):
+            return "the --log-file is not what the same command writes to a fresh log path (the path held %s bytes before the run)" % \
+                a.get("pre", "-/-/-").split("/")[2]
+        sc = a.get("symc", "-")
+        if sc != "-" and a["exit"] == "0":
+            tc, tt, lc, lt = sc.split("/")
+            if tc != lc:
+                return "the symbol cache directory of the tool holds %s files after the run, the library's %s (same URLs, fresh directories)" % (tc, lc)
+            if tt != "x" and tt != lt:
+                return "the --symbols-tmp directory holds %s files after the run, the library's %s" % (tt, lt)
         return None
 
     # ------------------------------------------------------------------ model vs binary, cross-case checks
@@ -456,7 +568,12 @@ class C20(PropBase):
         return vio
 
     def compare(self, c, a, pred):
-        p_exit, p_stdout, p_out, p_cy, p_log, p_sd, p_ld, p_rec = pred
+        p_exit, p_stdout, p_out, p_cy, p_log, p_sd, p_ld, p_rec, p_sym = pred
+        winner = None
+        if p_sym != "-":
+            p_paths, p_urls, p_win = p_sym.split("/")
+            if not p_urls and p_win != "-":
+                winner = p_win          # the rendering must be the one the library gives with that root alone
         _rej, prim0, _sec = documented(c)
         if c["ldi"] and a.get("cpu") in ("amd64", "arm64"):
             return "skip"      # DebugInfoSymbolProvider is outside the model and the harness
@@ -479,6 +596,15 @@ class C20(PropBase):
             s = parse_sink(got)
             if s == "n/a" or "!" in want:
                 continue
+            kept = set(a.get("kept", "-").split("+"))
+            if want == "K":
+                pre_len = dict(zip(("output file", "cyborg file"), a.get("pre", "-/-/-").split("/")[:2])).get(nm, "-")
+                if pre_len == "-":
+                    want = "-"          # the previous run that was to write the file did not create it
+                elif {"output file": "out", "cyborg file": "cy"}.get(nm) not in kept:
+                    return "%s is %s, model: the file the run found, untouched" % (nm, got[:40])
+                else:
+                    continue
             if want == "-":
                 if s is not None and not (nm == "output file" and c["out"][0] == "f" and s[0] == 0):
                     return "%s exists (%s), model: not created" % (nm, got[:40])
@@ -503,6 +629,8 @@ class C20(PropBase):
                     continue
                 return "%s equals %s, model: a prefix of %s" % (nm, "+".join(sorted(s[2])) or "no rendering", w)
             w = want + (p_rec if want in ("H", "HB", "J", "JP") else "")
+            if winner and want in ("H", "HB", "J", "JP"):
+                w += "@" + winner
             if w not in s[2]:
                 return "%s equals %s, model: %s" % (nm, "+".join(sorted(s[2])) or "no rendering", w)
         if a["log"] != "n/a":
